@@ -35,3 +35,17 @@ Proof.
   eexists. eexists. split; [vm_compute; reflexivity|]. split; [vm_compute; reflexivity|].
   split; [vm_compute; reflexivity|]. split; vm_compute; reflexivity.
 Qed.
+
+(* the two database hypotheses are DECIDABLE conditions on the translated tables: for the composed decode function of
+   any tables passing these boolean checks (EndToEnd.tbl_decode: dispatcher, then the per-definition decoder) the
+   hypotheses of C10 hold.  tools/templates/OblC10.v evaluates the checks on the tables regenerated from /repo and
+   instantiates C10 (C10_for_this_code) and the C11 theorems with no hypothesis left. *)
+From NV Require Import Defn Fields Dispatch EndToEnd DbHyps.
+Theorem C10_hypotheses_decidable : forall code_dec code_disp L LB LI,
+  dec_pgn_okb code_dec = true -> disp_okb code_disp = true ->
+  db_pgn_ok (tbl_decode code_dec code_disp L LB LI) /\
+  (claim_id_okb code_dec = true -> db_claim_id_ok (tbl_decode code_dec code_disp L LB LI)).
+Proof.
+  intros cd cp L LB LI A B. split; [exact (tbl_db_pgn_ok cd cp L LB LI A B) | intros C; exact (tbl_db_claim_id_ok cd cp L LB LI A B C)].
+Qed.
+Print Assumptions C10_hypotheses_decidable.
